@@ -480,6 +480,8 @@ inductive Err
   | nameError
   | attributeError
   | typeError
+  /-- `xsdata.exceptions.SerializerError`, raised by `render` itself -/
+  | serializerError
   /-- outside what this model predicts -/
   | unmodelled
 deriving DecidableEq, Repr
@@ -488,6 +490,7 @@ def Err.name : Err → Str
   | .nameError => cs!"NameError"
   | .attributeError => cs!"AttributeError"
   | .typeError => cs!"TypeError"
+  | .serializerError => cs!"SerializerError"
   | .unmodelled => cs!"unmodelled"
 
 /-- namespace after the import lines ran: `(module, name)` in execution order;
@@ -749,9 +752,23 @@ end
 
 /-! ## `PycodeSerializer.render(obj, var_name)` and what running it gives -/
 
+/-- `build_imports` refuses a set of types in which one outermost name belongs
+to two modules (`builtins` counts as a module: a class named `float` next to a
+float value is refused too) -/
+def clashFree (ts : List ClsRef) : Bool :=
+  ts.all fun t => ts.all fun u => t.path.headD [] != u.path.headD [] || t.module == u.module
+
+/-- does `render(obj)` return (rather than raise `SerializerError`)? -/
+def renders (W : World) (v : Val) : Bool := clashFree (render W v).types
+
+/-- the text `render` returns when it returns -/
 def source (W : World) (v : Val) (var : Str) : Str :=
   let e := render W v
   importsText e.types ++ cs!"\n\n" ++ var ++ cs!" = " ++ e.text 0 ++ cs!"\n"
+
+/-- `PycodeSerializer.render(obj, var)` -/
+def sourceE (W : World) (v : Val) (var : Str) : Except Err Str :=
+  if renders W v then .ok (source W v var) else .error .serializerError
 
 /-- the namespace the expression is evaluated in -/
 def importsEnv (W : World) (v : Val) : Env := imports (render W v).types
@@ -760,6 +777,7 @@ def importsEnv (W : World) (v : Val) : Env := imports (render W v).types
 def run (W : World) (v : Val) : Except Err Val := eval W (importsEnv W v) (render W v)
 
 def outcome (W : World) (v : Val) : Str :=
+  if !renders W v then cs!"refused:SerializerError" else
   if (render W v).syntaxRisk then cs!"unmodelled" else
   match run W v with
   | .ok v' => if pyEq v' v then cs!"equal" else cs!"unequal"
